@@ -163,12 +163,20 @@ func (s *Session) exec(ctx int, e *Expr, text string, v, w int, extra *Env) outc
 	} else {
 		o = execSafe(s.b.ByID[ctx], &c.g, st)
 	}
+	// the same compiled expression, the same node, the same bindings once more: the same result (bit for bit)
+	again := true
+	if c.err == nil {
+		o2 := execSafe(s.b.ByID[ctx], &c.g, st)
+		j1, _ := json.Marshal(obsJSON(s.b, o))
+		j2, _ := json.Marshal(obsJSON(s.b, o2))
+		again = string(j1) == string(j2)
+	}
 	envPost := bindingsDigest(&owned)
 	if ns, ok := o.res.(xsel.NodeSet); ok && o.err == nil && o.panic == nil {
 		s.held = append(s.held, ns)
 	}
 	s.enc.Encode(map[string]any{"ev": "exec", "h": s.h, "ctx": ctx, "env": tenv, "e": e, "text": text, "res": obsJSON(s.b, o), "vh": v, "wh": w,
-		"held": s.heldSnapshot(), "dochash": docDigest(s.b.Root), "envpre": envPre, "envpost": envPost})
+		"held": s.heldSnapshot(), "dochash": docDigest(s.b.Root), "envpre": envPre, "envpost": envPost, "again": again})
 	return o
 }
 
